@@ -266,14 +266,22 @@ func TestVerifRaftx(t *testing.T) {
 			res.Extra["fair_suffix_runs"] = suffixes
 		}
 	}()
+	mine := 0
+	for ci := range cfgs {
+		if ci%run.Shards == run.Shard {
+			mine++
+		}
+	}
 	for ci, cfg := range cfgs {
 		if ci%run.Shards != run.Shard {
 			continue
 		}
+		mine--
 		if f := os.Getenv("VERIF_ONLY_CFG"); f != "" && !strings.Contains(cfg.Name, f) {
 			res.Cap("development filter VERIF_ONLY_CFG is set")
 			continue
 		}
+		restoreDeadline := run.Slice(mine + 1)
 		cfg := cfg
 		ci := ci
 		sub := verifkit.NewResult()
@@ -324,6 +332,7 @@ func TestVerifRaftx(t *testing.T) {
 		res.DistinctNontrivial += st.States
 		res.Extra["cfg:"+cfg.Name] = fmt.Sprintf("states=%d transitions=%d depth=%d fixpoint=%v perdepth=%v", st.States, st.Transitions, st.Depth, st.Fixpoint, st.PerDepth)
 		res.Extra["bounds:"+cfg.Name] = verifkit.NonZeroFields(cfg)
+		restoreDeadline()
 	}
 }
 
